@@ -70,7 +70,7 @@ def BOUNDS(tier):
     return {'networks': ['{}:cut{}'.format(n, ic) for n, ic in networks()],
             'bases': list(chain1.BASES), 'energy_deviations(added)': [l for l, v in chain1.ENE_DEV],
             'prefactor_deviations(multiplied)': [l for l, v in chain1.PRE_DEV],
-            'k_interstitial': kb['k'], 'k_GF': kb['kGF'],
+            'k_interstitial': kb['k'], 'k_GF': kb['kGF'] if kb['kGF'] == 1 else '2 around G1, G2; 1 around T, X',
             'tolerance': '|D-Dmodel| <= 1e-9*max|D| + 1e-13*max|D0| + 4*eps*cond(omega)*max|correction|',
             'gf_skipped_singular_D': ['{}:cut{}'.format(n, ic) for n, ic in GF_SKIP],
             'gf_only(disconnected)': list(GF_ONLY)}
@@ -92,6 +92,12 @@ def cases(tier):
             else:       # the GF calculator is expensive to construct: all four bases in one case
                 nch = max(1, -(-4 * nn // CHUNK_NODES[kind]))
                 blist = [list(chain1.BASES)]
+                if k > 1:   # thorough: kGF = 2 only around G1 and G2, kGF = 1 around T and X (SetRates costs 0.1-0.3 s)
+                    nn1 = len(chain1.nodes(ns, nj, 1))
+                    out.append({'key': '{}:cut{}:T+X:gf:k1:0/1'.format(name, ic), 'net': name, 'icut': ic, 'bases': ['T', 'X'],
+                                'kind': kind, 'k': 1, 'chunk': [0, 1], 'cost': 2 * nn1 * 0.25})
+                    blist = [['G1', 'G2']]
+                    nch = max(1, -(-2 * nn // CHUNK_NODES[kind]))
             for bases in blist:
                 for c in range(nch):
                     out.append({'key': '{}:cut{}:{}:{}:k{}:{}/{}'.format(name, ic, '+'.join(bases), kind, k, c, nch),
